@@ -176,7 +176,11 @@ PoolAccept(r) ==
 -----------------------------------------------------------------------------
 (* a class duke has read must be written; only the hand-made local variable *)
 (* variant may find nothing to work on                                      *)
-WriteAccept(r) == IF Skipped(r.got) THEN r.variant = "lvt" ELSE OutputOK(r.got)
+(* variant linepc: the tree holds a line number whose label no instruction carries (a start_pc inside an instruction): *)
+(* the writer refuses it or writes a well-formed file, never a malformed one (seed C02-12)                            *)
+WriteAccept(r) == IF Skipped(r.got) THEN r.variant \in {"lvt", "linepc"}
+                  ELSE IF r.variant = "linepc" /\ Refused(r.got) THEN TRUE
+                  ELSE OutputOK(r.got)
 
 Accept(r) ==
     /\ HasF(r, "got") /\ ~HasF(r.got, "panic")
